@@ -18,12 +18,58 @@ class P:
     _impl = {}
 
     def budget(self, tier):
-        return 2
+        return 24
 
     def cases(self, tier, rng, budget):
-        return ["infomodel builtin", "infomodel shipped"]
+        """the two dumps, then DECODING on both load paths: every element of the built-in table under enterprise 0, 40 to a template,
+        announced and used by one record, for IPFIX and NetFlow v9: decoded with the built-in model before the file is ever loaded,
+        with the shipped file installed and loaded, and with the built-in model again (all in one process, in this order)"""
+        from props.flowgen import Gen, Tpl, MINLEN
+        from props.flowprop import go_model
+        from props.common import hx, rand_addr
+        out = ["infomodel builtin", "infomodel shipped"]
+        self.as_hist = {}
+        model = go_model()
+        for proto in ("ipfix", "nf9"):
+            g = Gen(proto, model, rng)
+            iana = sorted((eid, t) for (pen, eid), (fid, t) in model.items() if pen == 0 and eid < 30000)
+            for k in range(0, len(iana), 40):
+                a = rand_addr(rng)
+                t = Tpl(256 + k // 40, [], [(eid, 0, MINLEN.get(ty, 0) or 4) for eid, ty in iana[k:k + 40]])
+                rec = bytes(rng.randrange(256) for _ in range(sum(f[2] for f in t.fields)))
+                hist = "%s %s %s %s" % (hx(a), hx(g.enc_msg([g.enc_set(g.tpl_set_id(False), g.enc_tpl(t, False))])), hx(a), hx(g.enc_msg([g.enc_set(t.tid, rec)])))
+                line = "imdecode %s %s" % (proto, hist)
+                self.as_hist[line] = ("ipfixh " if proto == "ipfix" else "nf9h ") + hist
+                out.append(line)
+        return out
+
+    def post(self, lines, impl, model):
+        idx = [i for i, l in enumerate(lines) if l in getattr(self, "as_hist", {})]
+        if idx:
+            from props.flowprop import subst_floats
+            res = subst_floats(vf.run_model([self.as_hist[lines[i]] for i in idx]))
+            model = list(model)
+            for i, r in zip(idx, res):
+                model[i] = r
+        return impl, model
 
     def judge(self, line, impl, model):
+        if line.startswith("imdecode"):
+            proto = line.split()[1]
+            parts = impl.split(" || ")
+            if len(parts) != 3 or "PANIC" in impl or "HANG" in impl:
+                return "decoding on the two load paths failed: %s" % impl[:200]
+            r0, r1, r2 = parts[0], parts[1][len("SHIPPED "):], parts[2][len("AFTER "):]
+            data = lambda r: r.split(" ## ")[-1]
+            if r1 != r0:
+                return ("the same %s template and record decode differently once scripts/ipfix.elements is installed and loaded: built-in %r, "
+                        "with the file %r" % (proto, data(r0)[:300], data(r1)[:300]))
+            if r2 != r0:
+                return ("the same %s template and record decode differently with the built-in model after the shipped file was loaded once in "
+                        "the process: before %r, after %r" % (proto, data(r0)[:300], data(r2)[:300]))
+            if r0 != model:
+                return "model/implementation disagreement: impl %r model %r" % (data(r0)[:300], data(model)[:300])
+            return None
         which = line.split()[1]
         self._impl[which] = impl
         if impl.startswith(("PANIC", "ERR", "CRASH")):
@@ -47,6 +93,8 @@ class P:
         return None
 
     def classify(self, line, impl, model):
+        if line.startswith("imdecode"):
+            return ("decode-both-paths " + line.split()[1], line if " N:1 " in impl else None)
         n = len(parse(impl))
         return ("entries=%d" % n, line if n > 100 else None)
 
